@@ -281,9 +281,36 @@ class GuardStates:
 
     LIMIT = 4000
 
-    def __init__(self, cfg: CFG, call_kill: Callable[[Node], Set[str]] = None, edge_filter: Callable[[Edge], bool] = None):
+    def __init__(self, cfg: CFG, call_kill: Callable[[Node], Set[str]] = None, edge_filter: Callable[[Edge], bool] = None, focus=None):
         self.cfg = cfg
         self.edge_filter = edge_filter
+        # focus: AST nodes the caller will ask about.  Only facts that read an access path also read by a test enclosing
+        # (or sharing the innermost loop with) a focus node are tracked - a slice that keeps the disjunctive state small in
+        # long functions (run()) without losing any fact such a query can use.
+        self.relevant: Optional[Set[str]] = None
+        if focus:
+            rel: Set[str] = set()
+            loops = []
+            for fn_ in focus:
+                a = getattr(fn_, "_parent", None)
+                inner = None
+                while a is not None:
+                    if isinstance(a, (ast.If, ast.While)):
+                        rel |= access_paths(a.test)
+                    if isinstance(a, (ast.For, ast.While)) and inner is None:
+                        inner = a
+                    if isinstance(a, (ast.FunctionDef, ast.AsyncFunctionDef)):
+                        break
+                    a = getattr(a, "_parent", None)
+                if inner is not None:
+                    loops.append(inner)
+            for lp in loops:
+                for x in ast.walk(lp):
+                    if isinstance(x, (ast.If, ast.While)):
+                        rel |= access_paths(x.test)
+                    elif isinstance(x, ast.IfExp):
+                        rel |= access_paths(x.test)
+            self.relevant = rel
         self.exprs: Dict[str, ast.expr] = {}
         self._reads: Dict[str, Set[str]] = {}
         self.call_kill = call_kill
@@ -296,6 +323,9 @@ class GuardStates:
             self.exprs[t] = cond
             self._reads[t] = access_paths(cond)
         return (t, pol)
+
+    def _tracked(self, cond: ast.expr) -> bool:
+        return self.relevant is None or bool(access_paths(cond) & self.relevant)
 
     def _const_assign_fact(self, node: Node) -> Optional[Fact]:
         """`x = None` / `x = 0` / `x = True` leaves a fact about x (value known after the store)."""
@@ -354,11 +384,11 @@ class GuardStates:
                     # an exc edge leaves before the statement completed: stores may or may not have
                     # happened -> kill as well (sound both ways: fewer facts)
                     f2 = self._kill(facts, st)
-                    if e.cond is not None:
+                    if e.cond is not None and self._tracked(e.cond):
                         f2 = f2 | {self._fact(e.cond, e.pol)}
                     if e.kind != "exc":
                         cf = self._const_assign_fact(node)
-                        if cf is not None:
+                        if cf is not None and self._tracked(self.exprs[cf[0]]):
                             f2 = f2 | {cf}
                     outs.add(f2)
                 tgt = self.state[e.dst]
@@ -413,15 +443,15 @@ class GuardStates:
         out = []
         for facts in self.state[e.src]:
             f2 = self._kill(facts, st)
-            if e.cond is not None:
+            if e.cond is not None and self._tracked(e.cond):
                 f2 = f2 | {self._fact(e.cond, e.pol)}
             if e.kind != "exc":
                 cf = self._const_assign_fact(node)
-                if cf is not None:
+                if cf is not None and self._tracked(self.exprs[cf[0]]):
                     f2 = f2 | {cf}
             out.append([(self.exprs[t], pol) for (t, pol) in sorted(f2)])
         return out
 
 
-def guard_states(cfg: CFG, call_kill=None, edge_filter=None) -> GuardStates:
-    return GuardStates(cfg, call_kill, edge_filter)
+def guard_states(cfg: CFG, call_kill=None, edge_filter=None, focus=None) -> GuardStates:
+    return GuardStates(cfg, call_kill, edge_filter, focus)
